@@ -145,7 +145,8 @@ func newC07World(seed uint64, n, t int) (*c07World, error) { return newC07WorldA
 
 // newC07WorldAged: the key generation was completed `age` ago.
 func newC07WorldAged(seed uint64, n, t int, age time.Duration) (*c07World, error) {
-	ce, err := NewCeremony(seed, n, t, world.EagerPolicy)
+	// odd seeds: proposals, operation lists and answers go through the REST API
+	ce, err := NewCeremonyVia(seed, n, t, world.EagerPolicy, seed%2 == 1)
 	if err != nil {
 		return nil, err
 	}
@@ -334,6 +335,9 @@ func checkC07(c *Ctx) {
 			wit := map[string]interface{}{"n": 3, "t": 2, "order": strings.Join(names, " "), "polling": "eager", "key_generation_completed_ago": age.String()}
 			if age > 0 {
 				c.Add("orders_played_on_a_round_older_than_a_week", 1)
+			}
+			if cw.ce.W.Opt.ViaHTTP {
+				c.Add("orders_played_through_the_rest_api", 1)
 			}
 			batchIDs, expected, err := cw.play(order, []int{0, 1}, nil)
 			c.Eval(1)
